@@ -356,6 +356,51 @@ def native_part(prop, tier, tmp, only=None):
     return dict(status='ok' if not undec else 'partial', violations=vs, evidence=ev, scratch=scratch, reason='; '.join(undec))
 
 
+def native_contracts_part(prop, tier, tmp, exe=None, only=None):
+    """BOUNDED stand-in beyond Kani's capacities: the harness-encoded contracts of the property are ENUMERATED natively on the
+    real code at the capacities listed under ns['native'] (6, 7, 8): every layout x small arguments, until exhausted or a
+    budget is spent.  A failing clause of this property is a violation with a concrete input; labelled bounded."""
+    pairs = []
+    for e in HARNESSES:
+        if prop not in e['props'] or e.get('native_only') or e.get('kani_only') or e.get('features'):
+            continue
+        if only and e['fn'] not in only:
+            continue
+        for n in e['ns'].get('native') or []:
+            pairs.append((e, n))
+    if not pairs:
+        return None
+    scratch = os.path.join(tmp, 'native')
+    if not exe:
+        if not os.path.exists(scratch):
+            try:
+                kanileg.make_scratch(REPO, scratch, kanileg.all_pairs(), [])
+            except Exception as ex:
+                return dict(status='undecided', reason='scratch construction failed: %s' % ex, violations=[], evidence={}, scratch=scratch)
+        exe, err = build_native_runner(scratch, '')
+        if not exe:
+            return dict(status='undecided', reason='native build failed: ' + err[-300:], violations=[], evidence={}, scratch=scratch)
+    vs, rows = [], []
+    t_all = time.time()
+    for e, n in pairs:
+        nm = harness_name(e, n)
+        if time.time() - t_all > (240 if tier == 'quick' else 900):
+            rows.append(dict(contract=e['fn'], N=n, status='skipped (time budget of this pass spent)', runs=0))
+            continue
+        needle = prop + ('+untagged' if prop in e.get('untagged', []) else '')
+        r = replay_search(exe, nm, needle, budget=400000 if tier == 'quick' else 2000000, timeout=40 if tier == 'quick' else 150)
+        rows.append(dict(contract=e['fn'], N=n, status=r.get('status'), runs=r.get('runs')))
+        if r.get('status') == 'hit':
+            msg = r.get('message', '')
+            first = [x for x in msg.split(' || ') if prop in x] or [msg]
+            vs.append(dict(property=prop, leg='native-bounded', function=e['fn'], obligation=first[0][:200], n=n, harness=nm,
+                           detail='%s enumerated natively at N=%d: %s' % (e['fn'], n, first[0][:300]), verifier_output=msg,
+                           prefound=dict(harness=nm, choices=r.get('choices', ''), inputs=r.get('inputs', ''), message=msg, runs=r.get('runs'))))
+    ev = dict(kind='BOUNDED stand-in: the same harness-encoded contracts enumerated natively on the real code at capacities beyond the Kani leg (6..8); '
+                   'exhausted or cut by a run/time budget as stated per row; never counted as proved', contracts=rows)
+    return dict(status='ok', violations=vs, evidence=ev, scratch=scratch, reason='')
+
+
 # ---------------------------------------------------------------------------------------------
 # native replay
 
@@ -529,9 +574,12 @@ def check(prop, tier, seed, legs=('verus', 'kani'), keep=False, only=None):
         vp = verus_part(prop, tier, seed, tmp) if 'verus' in legs else None
         kp = kani_part(prop, tier, seed, tmp, only=only) if 'kani' in legs else None
         np_ = native_part(prop, tier, tmp, only=only) if 'native' in legs or 'kani' in legs else None
+        nc_ = native_contracts_part(prop, tier, tmp, only=only) if 'native' in legs or 'kani' in legs else None
         violations = []
         if np_:
             violations += np_['violations']
+        if nc_:
+            violations += nc_['violations']
         if vp:
             violations += vp['violations']
         if kp:
@@ -576,7 +624,7 @@ def check(prop, tier, seed, legs=('verus', 'kani'), keep=False, only=None):
                 scratch = os.path.join(tmp, 'replay_scratch')
                 feats = ''
                 rel = related_harnesses(prop, v['function'])
-                pairs = [(e, n) for e in rel for n in (e['ns'].get('thorough') or e['ns'].get('quick') or [])]
+                pairs = [(e, n) for e in rel for n in sorted(set((e['ns'].get('thorough') or e['ns'].get('quick') or []) + (e['ns'].get('native') or [])))]
                 if pairs and not os.path.exists(scratch):
                     try:
                         kanileg.make_scratch(REPO, scratch, kanileg.all_pairs(), [])
@@ -630,7 +678,7 @@ def check(prop, tier, seed, legs=('verus', 'kani'), keep=False, only=None):
             log(ln)
         undecided_all = True
         statuses = []
-        for part in (vp, kp, np_):
+        for part in (vp, kp, np_, nc_):
             if part:
                 statuses.append(part['status'])
         new_v = [(v, k) for v, k in new_v if v not in demoted]
@@ -647,7 +695,7 @@ def check(prop, tier, seed, legs=('verus', 'kani'), keep=False, only=None):
             for part, nm in ((vp, 'verus'), (kp, 'kani'), (np_, 'native bounded stand-in')):
                 if part and part['status'] != 'ok':
                     log('note: %s leg %s: %s' % (nm, part['status'], part.get('reason', '')))
-        write_evidence(prop, tier, seed, spec, vp, kp, new_v, known_v, fixed, time.time() - t0, np_)
+        write_evidence(prop, tier, seed, spec, vp, kp, new_v, known_v, fixed, time.time() - t0, np_, nc_)
         if rc == 0:
             log('OK property=%s tier=%s wall=%.1fs' % (prop, tier, time.time() - t0))
     finally:
@@ -658,7 +706,7 @@ def check(prop, tier, seed, legs=('verus', 'kani'), keep=False, only=None):
     return rc
 
 
-def write_evidence(prop, tier, seed, spec, vp, kp, new_v, known_v, fixed, wall, np_=None):
+def write_evidence(prop, tier, seed, spec, vp, kp, new_v, known_v, fixed, wall, np_=None, nc_=None):
     os.makedirs(EVID, exist_ok=True)
     level = spec['level']
     cov = {}
@@ -699,6 +747,8 @@ def write_evidence(prop, tier, seed, spec, vp, kp, new_v, known_v, fixed, wall, 
                                    'they are BOUNDED IN N and are not counted in obligations/discharged' % (kev.get('capacities'),))
     if np_:
         cov['bounded_native_stand_in'] = np_['evidence']
+    if nc_ and nc_.get('evidence'):
+        cov['bounded_native_enumeration_of_contracts_at_N_6_to_8'] = nc_['evidence']
     cov['functions_under_contract'] = sorted(set([r['function'] for r in (vev or {}).get('functions', [])] +
                                                  [r['contract'] for r in (kev or {}).get('harnesses', [])]))
     cov['not_covered'] = spec.get('not_covered', [])
